@@ -30,11 +30,13 @@
    _partial / not proved: equality of the canonical value after forcing with the eagerly
    decoded value for inputs outside the F1 class ([lazy_refines_eager_except_F1]); it is
    checked by execution only (C lines of family lazy, and the lazy-vs-eager access scripts on
-   the implementation).  One level of laziness is modelled (see Msg/LazyModel.v). *)
+   the implementation), except for two proved pieces: lazy_value_eq_eager_nolazy_partial (types
+   without lazy fields) and eager_depth_monotone (see below).  One level of laziness is modelled (see Msg/LazyModel.v). *)
 From Coq Require Import List NArith ZArith Bool.
 From PB Require Import Base.PBytes Wire.WireModel.
 From PB Require Import Msg.MsgSchema Msg.MsgValue Msg.MsgEnc Msg.MsgDec.
 From PB Require Import Msg.ValidateMsgModel Msg.ValidateMsgP Msg.LazyModel Msg.LazyP.
+From PB Require Import Msg.LazyValueP Msg.DecDepthMonoP.
 Import ListNotations.
 Open Scope N_scope.
 
@@ -53,6 +55,32 @@ Theorem C17_lazy_access_total_index :
     forall n, In n (l_lazy m) -> lz_lookup (l_index m) n <> [].
 Proof. exact lzp_lookup_total. Qed.
 Print Assumptions C17_lazy_access_total_index.
+
+(* Towards [lazy_refines_eager_except_F1] (value after forcing = eagerly decoded value), _partial.
+   Two of its pieces are proved:
+   (a) on every field that is not a lazy one the tag loop of lazy Unmarshal is the eager tag loop
+       (same accumulator, same error; index and presence bookkeeping never touch decoded fields),
+       so for a message type WITHOUT lazy fields lazy Unmarshal gives exactly the eager verdict
+       and the eager value;
+   (b) the eager decoder is monotone in the recursion limit (forcing decodes with
+       DefaultRecursionLimit what Unmarshal validated with the depth that was left).
+   Missing: locality of one decoder step (a field changes only its own entry of the field list),
+   index correctness (the ranges lookupField returns are exactly the occurrences of the field, in
+   input order, also after the out-of-order sort), and the assembly of the forced values. *)
+Theorem C17_lazy_value_eq_eager_nolazy_partial :
+  forall (S : schema) (limit tid : nat) (bs : list byte) (md : mdesc),
+    nth_error S tid = Some md -> lzv_nolazy md ->
+    lz_value_of S limit tid bs = match msg_decode false S limit tid bs with DOk v => Some v | DErr _ => None end /\
+    lz_verdict S limit tid bs = match msg_decode false S limit tid bs with DOk _ => 0 | DErr e => derr_code e end.
+Proof. exact lzv_value_nolazy. Qed.
+Print Assumptions C17_lazy_value_eq_eager_nolazy_partial.
+
+Theorem C17_eager_depth_monotone :
+  forall (slow : bool) (S : schema) (limit limit' tid : nat) (bs : list byte) (v : value),
+    (limit <= limit')%nat ->
+    msg_decode slow S limit tid bs = DOk v -> msg_decode slow S limit' tid bs = DOk v.
+Proof. exact ddm_decode_mono. Qed.
+Print Assumptions C17_eager_depth_monotone.
 
 (* ---------- refutations (findings) ---------- *)
 (* a Node-like type: lazy field 99 of its own type, int32 field 1 *)
@@ -101,3 +129,15 @@ Example C17_example_invalid :
   lz_verdict C17_node 5 0 [x9a; x06; x04; x9a; x06; x01; x00] = 1 /\
   msg_decode false C17_node 5 0 [x9a; x06; x04; x9a; x06; x01; x00] = DErr DParse.
 Proof. vm_compute. split; reflexivity. Qed.
+(* the no-lazy hypothesis holds of type 1 of C17_reqlazy (and not of type 0), and both sides of
+   the conclusion are the decoded value there *)
+Example C17_example_nolazy :
+  lzv_nolazy (nth 1 C17_reqlazy []) /\ lzv_nolazyb (nth 0 C17_reqlazy []) = false /\
+  lz_value_of C17_reqlazy 5 1 [x08; x05] = Some (VMsg [(1, [VS (SZ 5)])] []) /\
+  msg_decode false C17_reqlazy 5 1 [x08; x05] = DOk (VMsg [(1, [VS (SZ 5)])] []).
+Proof. split; [apply lzv_nolazyb_spec; vm_compute; reflexivity|]. vm_compute. repeat split; reflexivity. Qed.
+(* depth monotonicity is not vacuous: the F1 input decodes at limit 2 and at limit 5 *)
+Example C17_example_depth :
+  exists v, msg_decode false C17_node 2 0 C17_f1 = DOk v /\ msg_decode false C17_node 5 0 C17_f1 = DOk v /\
+            msg_decode false C17_node 1 0 C17_f1 = DErr DDepth.
+Proof. eexists. vm_compute. repeat split; reflexivity. Qed.
